@@ -24,6 +24,8 @@ def _observe(cd, toff=0):
         sel = sorted({0, cd.time_cycle - 1})
         o["sel_phases"] = sel
         o["isp"] = enc.ints(cd.indices_selected_phases(sel))
+        # every column of the shuffled anomaly is a rearrangement of the same column of the anomaly
+        o["shuffled"] = enc.arr(cd.shuffled_anomaly())
     except Exception as ex:
         o["exc"] = type(ex).__name__
     return {"op": "observe", "obs": o}
